@@ -83,6 +83,19 @@ def run(ctx):
             problems.append('argument-modified')
         if isinstance(got, dict) and (mapping_ids(got, set()) & mapping_ids(arg, set())):
             problems.append('shares-a-mapping-object-with-the-argument')
+        if not problems and n % 3 == 0:
+            # the same argument again under another mask: nothing is remembered from the first call
+            mask2 = 'other-mask' if mask != 'other-mask' else '***'
+            arg2, want2 = gm.build_pair(rec['tree'], rec['masked'], random.Random(ctx.seed * 4099 + n - 1), mask2)
+            try:
+                got2 = strutils.mask_dict_password(arg, mask2)
+            except Exception as e:
+                got2 = 'EXC:' + type(e).__name__
+            if arg2 != backup:
+                raise MachineryError('gamma is not reproducible')
+            if got2 != want2:
+                problems.append('second-call-under-another-mask')
+                got, want, mask = got2, want2, mask2
         if problems:
             ctx.violation({'kind': problems[0], 'kinds': problems},
                           {'tree': rec['tree'], 'argument': repr(backup)[:800], 'mask': mask,
@@ -98,15 +111,18 @@ def run(ctx):
     for key in gm.SANITIZE:
         for form in (key, key.upper(), key.capitalize(), 'x_' + key, key + '9', 'A' + key.upper() + 'z'):
             for val in ('s3cr3t', b'bytes', 17, None, ['a'], 2.5):
-                arg = {form: val, 'keep': val}
-                bk = copy.deepcopy(arg)
-                got = strutils.mask_dict_password(arg)
-                m += 1
-                want = {form: '***', 'keep': val}
-                if got != want or arg != bk:
-                    ctx.violation({'kind': 'key-table', 'key': key},
-                                  {'argument': repr(bk), 'observed': repr(got), 'expected': repr(want)},
-                                  'mask_dict_password(%r) -> %r, specification %r' % (bk, got, want))
+                # the value under a sanitize key becomes the mask as given - also a mask that happens to look like a
+                # credential assignment itself (it is not text to be searched for secrets)
+                for mask in ('***', 'password=<hidden>', "token: 't'"):
+                    arg = {form: val, 'keep': val}
+                    bk = copy.deepcopy(arg)
+                    got = strutils.mask_dict_password(arg, mask)
+                    m += 1
+                    want = {form: mask, 'keep': val}
+                    if got != want or arg != bk:
+                        ctx.violation({'kind': 'key-table', 'key': key, 'mask': mask},
+                                      {'argument': repr(bk), 'observed': repr(got), 'expected': repr(want)},
+                                      'mask_dict_password(%r, %r) -> %r, specification %r' % (bk, mask, got, want))
     ctx.cov['evaluations'] += m
     ctx.stage('key-table', cases=m)
     # non-mappings raise TypeError
